@@ -6,6 +6,7 @@ package main
 //   [3; role; feature] does an incoming CALL of that feature reach a handler method of the role?
 
 import (
+	"runtime"
 	"math/rand"
 	"reflect"
 	"sort"
@@ -64,6 +65,9 @@ func rolesInit() {
 		go roleCS16.Start(0, "/")
 		_ = roleCS201.Start("ws://fake")
 		go roleCSMS201.Start(0, "/")
+		for !roleFakeS16.Running() || !roleFakeS201.Running() {
+			runtime.Gosched()
+		}
 		roleFakeS16.Connect("c1")
 		roleFakeS201.Connect("c1")
 	})
